@@ -14,13 +14,17 @@
  * encoding is the cheap second witness of the same idiom.) */
 void h_static_state_compact(void) {
     secp256k1_context ctx;
-    INPUT(secp256k1_ecdsa_signature, sig);
+    INPUT_ARR(unsigned char, sc_in, 64);
     INPUT(size_t, k);
-    unsigned char c64[64]; int ret;
+    secp256k1_ecdsa_signature sig; unsigned char c64[64]; int ret;
     verif_ctx_init(&ctx);
     __CPROVER_assume(k < 64);
-    ret = secp256k1_ecdsa_signature_serialize_compact(&ctx, c64, &sig);
-    __CPROVER_assert(ret == 1 && g_illegal == 0 && g_error == 0, "C20 static_state compact: succeeds without callback");
-    __CPROVER_assert(c64[k] == (k < 32 ? sig.data[31 - k] : sig.data[95 - k]), "C20 static_state compact: output is r||s big-endian, for every initial static state");
-    if (sig.data[0] != 0) REACH("compact serialize");
+    /* public 64-byte form in, the library's own parser, the library's own serializer, public form out */
+    ret = secp256k1_ecdsa_signature_parse_compact(&ctx, &sig, sc_in);
+    if (ret) {
+        ret = secp256k1_ecdsa_signature_serialize_compact(&ctx, c64, &sig);
+        __CPROVER_assert(ret == 1 && g_illegal == 0 && g_error == 0, "C20 static_state compact: serialize succeeds without callback");
+        __CPROVER_assert(c64[k] == sc_in[k], "C20 static_state compact: serialize(parse(b)) = b for every accepted b and every initial static state");
+        REACH("compact round trip");
+    }
 }
